@@ -251,3 +251,22 @@ func (n *nodeImpl) clusterCmd(s *Server, args [][]byte) resp.Reply {
 	}
 	return resp.Err("ERR unknown subcommand")
 }
+
+// Ranges returns the slot ranges node i owns under the current table.
+func (cs *ClusterSet) Ranges(i int) [][2]int {
+	cs.mu.Lock()
+	defer cs.mu.Unlock()
+	var out [][2]int
+	start := -1
+	for slot := 0; slot <= 16384; slot++ {
+		mine := slot < 16384 && cs.owner[slot] == i
+		if mine && start < 0 {
+			start = slot
+		}
+		if !mine && start >= 0 {
+			out = append(out, [2]int{start, slot - 1})
+			start = -1
+		}
+	}
+	return out
+}
